@@ -243,7 +243,20 @@ where
             (c2, n.try_clone().unwrap())
         })
     }
-    fn handle_event(&self, device_event: u16, _evset: EventSet, vrings: &[V], thread_id: usize) -> std::io::Result<()> {
+    fn handle_event(&self, device_event: u16, evset: EventSet, vrings: &[V], thread_id: usize) -> std::io::Result<()> {
+        IN_HARNESS.with(|f| f.set(true));
+        let r = self.handle_event_inner(device_event, evset, vrings, thread_id);
+        IN_HARNESS.with(|f| f.set(false));
+        r
+    }
+}
+
+impl<V, B> TBackend<V, B>
+where
+    V: VringT<GM<B>> + Clone + Send + Sync + 'static,
+    B: Bitmap + Clone + Send + Sync + 'static,
+{
+    fn handle_event_inner(&self, device_event: u16, _evset: EventSet, vrings: &[V], thread_id: usize) -> std::io::Result<()> {
         if device_event == self.probe_id() {
             let _ = self.probe_fds[thread_id].read();
             let snaps: Vec<QSnap> = vrings.iter().map(|v| qsnap::<V, B>(v)).collect();
@@ -304,6 +317,34 @@ where
 }
 
 // ------------------------------------------------------------------------------------------------
+
+thread_local! {
+    /// set while harness code (the recording backend's callbacks) runs on a library thread: ring
+    /// lock acquisitions made by the harness itself are not scheduling points
+    pub static IN_HARNESS: std::cell::Cell<bool> = const { std::cell::Cell::new(false) };
+}
+
+static RING_HOOK: std::sync::Once = std::sync::Once::new();
+
+/// Make the ring state lock acquisitions of library threads other than the daemon thread (i.e.
+/// of the vring workers) scheduling points of the E2 controller. The daemon thread is cut at its
+/// system calls; cutting the worker between its lock-protected steps is what exposes a check
+/// made under one lock acquisition and acted upon under another.
+pub fn install_ring_lock_hook() {
+    RING_HOOK.call_once(|| {
+        vhost_user_backend::verif::set_ring_lock_point(Box::new(|_site, ready| {
+            if IN_HARNESS.with(|f| f.get()) {
+                return;
+            }
+            let t = std::thread::current();
+            let name = t.name().unwrap_or("");
+            if name.starts_with("vmc-daemon") || name == "main" {
+                return;
+            }
+            crate::sysshim::sched_point(crate::sysshim::Point::Lock("ring"), ready);
+        }));
+    });
+}
 
 static PANICS: Mutex<Vec<String>> = Mutex::new(Vec::new());
 static HOOKED: AtomicBool = AtomicBool::new(false);
